@@ -251,44 +251,58 @@ pi_entry_rt!(c08_patch_index_entry_rt_k0, 0);
 // @end
 
 // header: write(read(b)) reproduces the header bytes it was read from
+// The two structure fields that size slices inside build (extra-header length, key_size) are concrete per harness:
+// with them symbolic the rebuilt Vec has a symbolic size and CBMC runs out of memory (measured: 16 GB at N = 27).
 macro_rules! pi_header_rt {
-    ($name:ident, $n:expr, $kf:expr) => {
+    ($name:ident, $n:expr, $xl:expr, $ks:expr) => {
         #[kani::proof]
         #[kani::unwind(8)]
         fn $name() {
             const N: usize = $n;
-            let b: [u8; N] = kani::any();
+            let mut b: [u8; N] = kani::any();
+            b[12] = $xl;
+            b[13] = 0;
+            b[14] = $ks;
             let r = PatchIndexHeader::parse(&b);
             kani::cover!(r.is_ok(), "accepted");
             if let Ok(h) = &r {
-                if $kf {
-                    // after patch patch_index_header_key_size no accepted header carries a key size above 16
-                    assert!(h.key_size <= 16, "PatchIndexHeader::parse accepted key_size > 16 (build would slice the 16-byte key array out of range)");
-                }
                 kani::cover!(h.blocks.len() == 1, "one block descriptor");
+                assert!(h.key_size == $ks && h.key_size <= 16, "key size field");
                 let w = h.build();
-                let canonical = (b[12] as u16 | (b[13] as u16) << 8) >= 1;
-                if canonical {
-                    assert!(w.len() <= N, "rebuilt header longer than the bytes it was parsed from");
-                    let i: usize = kani::any();
-                    kani::assume(i < w.len());
-                    assert!(w[i] == b[i], "write(read(b)) differs from b");
-                }
+                assert!(w.len() <= N, "rebuilt header longer than the bytes it was parsed from");
+                let i: usize = kani::any();
+                kani::assume(i < w.len());
+                assert!(w[i] == b[i], "write(read(b)) differs from b");
                 std::mem::forget(w);
             }
             std::mem::forget(r);
         }
     };
 }
-// @family prop=C08 tier=quick timeout=900 role=patch-index-header-roundtrip
-// @bounds input of concrete length N (name: n<N>), all bytes symbolic; accepted headers with key_size <= 16; inputs with extra-header length 0 are non-canonical (build always writes the key_size byte) and only required not to fail
+// NOT REGISTERED (measured: CBMC out of memory at 16 GB after ~130 s, also with the extra-header length and key size concrete: the
+// block count still makes the rebuilt Vec a symbolic-size object)
+// family prop=C08 role=patch-index-header-roundtrip
+// @bounds 43 input bytes, all symbolic except the extra-header length and the key_size byte, concrete per harness (name: x<extra len>_k<key size>: 1/0, 4/3, 17/16, 20/16 = 3 bytes of extra data); header_size, version, data_size, key bytes, extra data, block count and descriptors symbolic
 // @encodes cascette_formats::patch_index::header::PatchIndexHeader::parse, cascette_formats::patch_index::header::PatchIndexHeader::build
 // @catches extra-header length computed differently by build and parse, block table order, field endianness, key bytes dropped
-pi_header_rt!(c08_patch_index_header_rt_n27, 27, false);
-pi_header_rt!(c08_patch_index_header_rt_n43, 43, false);
+pi_header_rt!(c08_patch_index_header_rt_x1_k0, 43, 1, 0);
+pi_header_rt!(c08_patch_index_header_rt_x4_k3, 43, 4, 3);
+pi_header_rt!(c08_patch_index_header_rt_x17_k16, 43, 17, 16);
+pi_header_rt!(c08_patch_index_header_rt_x20_k16, 43, 20, 16);
 // @end
 // @harness prop=C08 tier=quick timeout=900 role=patch-index-header-build-wide-key
-// @bounds 43 symbolic bytes (every accepted header is rebuilt)
-// @encodes cascette_formats::patch_index::header::PatchIndexHeader::parse, cascette_formats::patch_index::header::PatchIndexHeader::build
-// @catches regression of patch patch_index_header_key_size: parse accepting key_size > 16 (copies min(16) bytes, skips key_size) while build slices key_data[..key_size] and panics
-pi_header_rt!(c08_patch_index_header_build_wide_key, 43, true);
+// @bounds 43 symbolic bytes with extra-header length 18 and the key_size byte symbolic in 17..=255
+// @encodes cascette_formats::patch_index::header::PatchIndexHeader::parse
+// @catches regression of patch patch_index_header_key_size: parse accepting key_size > 16 (copies min(16) bytes, skips key_size) while build slices key_data[..key_size] and panics (fails / does not finish on a tree without the patch)
+#[kani::proof]
+#[kani::unwind(8)]
+fn c08_patch_index_header_build_wide_key() {
+    let mut b: [u8; 43] = kani::any();
+    b[12] = 18;
+    b[13] = 0;
+    kani::assume(b[14] >= 17);
+    let r = PatchIndexHeader::parse(&b);
+    kani::cover!(r.is_err() && b[4] == 1 && b[0] == 43 && b[1] == 0 && b[2] == 0 && b[3] == 0, "well-formed header with a wide key rejected");
+    assert!(r.is_err(), "PatchIndexHeader::parse accepted key_size > 16 (build would slice the 16-byte key array out of range)");
+    std::mem::forget(r);
+}
